@@ -207,8 +207,12 @@ def resolve(ip, v):
             r = VJDict(s.jd(t))
         v.res = r
         return r
-    if isinstance(v, VOptTerm) and ip.mode == 'code':
-        return v.kind.wrap(v.t, ip)
+    if isinstance(v, VOptTerm):
+        if v.res is not None:
+            return v.res
+        if ip.mode == 'code':
+            v.res = v.kind.wrap(v.t, ip)
+            return v.res
     return v
 
 
@@ -255,7 +259,7 @@ def truth(ip, v):
     if isinstance(v, VU):
         if v.kind.lenf:
             return UF(v.kind.lenf, v.kind.sort(), z3.IntSort())(v.t) > 0
-        raise EngineError(f'truthiness of opaque {v.kind.name}')
+        return True       # an object without __bool__/__len__
     if isinstance(v, VJ):
         raise EngineError('truthiness of a JSON value in specification mode')
     raise EngineError(f'truthiness of {v!r}')
@@ -372,11 +376,7 @@ def int_binop(ip, op, a, b, node):
         return KInt.wrap(z3.simplify(x * y))
     if isinstance(op, (ast.FloorDiv, ast.Mod)):
         if cb is None:
-            if ip.mode == 'code':
-                if ip.branch(y == 0):
-                    raise PyRaise(VExc('ZeroDivisionError'), node)
-            elif ip.mode == 'quant':
-                ip.prove(f'{ip.cur_fn}.noraise@{ip.stmt_tag(node)}', y != 0)
+            ip.raise_if(y == 0, 'ZeroDivisionError', node)
             q = py_floordiv(x, y)
         else:
             if cb == 0:
@@ -564,6 +564,12 @@ def compare(ip, op, a, b, node):
         return mk(t)
     # ordering
     a, b = resolve(ip, a), resolve(ip, b)
+    if ip.mode != 'code':
+        # specification mode is total: an optional stands for its payload
+        if isinstance(a, VOptTerm):
+            a = a.kind.inner.wrap(a.kind.sort().accessor(1, 0)(a.t), None)
+        if isinstance(b, VOptTerm):
+            b = b.kind.inner.wrap(b.kind.sort().accessor(1, 0)(b.t), None)
     if isinstance(a, VConst) and isinstance(b, VConst):
         import operator
         f = {ast.Lt: operator.lt, ast.LtE: operator.le, ast.Gt: operator.gt, ast.GtE: operator.ge}[type(op)]
@@ -578,6 +584,14 @@ def compare(ip, op, a, b, node):
         x, y = real_term(a), real_term(b)
     elif isinstance(a, VTuple) and isinstance(b, VTuple):
         return mk(tuple_order(ip, op, a, b, node))
+    elif isinstance(a, (VTuple, VList)) and isinstance(b, (VTuple, VList)):
+        ta = isinstance(a, VTuple) or bool(a.ghost.get('tuple'))
+        tb = isinstance(b, VTuple) or bool(b.ghost.get('tuple'))
+        if ta != tb:
+            if ip.mode == 'code':
+                raise PyRaise(VExc('TypeError'), node)      # tuple vs list
+            raise EngineError('ordering between a tuple and a list')
+        return mk(seq_order(ip, op, a, b, node))
     elif isinstance(a, VFloat) or isinstance(b, VFloat):
         return mk(float_order(ip, op, a, b, node))
     else:
@@ -614,6 +628,42 @@ def float_order(ip, op, a, b, node):
     return z3.And(nonan, t)
 
 
+def seq_order(ip, op, a, b, node):
+    '''Lexicographic order between integer sequences, at least one of symbolic length.'''
+    strict = isinstance(op, (ast.Lt, ast.Gt))
+    if isinstance(op, (ast.Gt, ast.GtE)):
+        a, b = b, a
+    # a < b (or <=)
+    if isinstance(a, VTuple) or isinstance(b, VTuple):
+        swap = isinstance(a, VTuple)
+        t, l = (a, b) if swap else (b, a)        # t concrete tuple, l symbolic list
+        if l.ek is None:
+            n_l = 0
+        if l.ek not in (None, KInt):
+            raise EngineError('sequence ordering over non-integers')
+        k = len(t.items)
+        ts = [int_term(resolve(ip, x)) for x in t.items]
+        # l < t  and  l == t  as terms
+        lt = z3.BoolVal(False)       # after position k: l is longer or equal -> not less
+        eq = l.n == k
+        for i in reversed(range(k)):
+            li = z3.Select(l.arr, i) if l.ek is not None else z3.IntVal(0)
+            lt = z3.If(l.n <= i, z3.BoolVal(True), z3.Or(li < ts[i], z3.And(li == ts[i], lt)))
+            eq = z3.And(eq, li == ts[i]) if l.ek is not None else eq
+        if not swap:      # a = l, b = t
+            return lt if strict else z3.Or(lt, eq)
+        # a = t, b = l:  t < l  <=>  not (l < t) and not eq
+        gt = z3.And(z3.Not(lt), z3.Not(eq))
+        return gt if strict else z3.Or(gt, eq)
+    f = UF('lex_lt', KList(KInt).sort(), KList(KInt).sort(), z3.BoolSort())
+    if a.ek not in (None, KInt) or b.ek not in (None, KInt):
+        raise EngineError('sequence ordering over non-integers')
+    ta, tb = KList(KInt).unwrap(a), KList(KInt).unwrap(b)
+    e = eq_term(ip, a, b)
+    e = z3.BoolVal(e) if isinstance(e, bool) else e
+    return f(ta, tb) if strict else z3.Or(f(ta, tb), e)
+
+
 def tuple_order(ip, op, a, b, node):
     '''Lexicographic order on tuples of ints (protocol version tuples).'''
     strict = isinstance(op, (ast.Lt, ast.Gt))
@@ -642,6 +692,11 @@ def contains(ip, cont, x, node):
         except TypeError:
             return False
     if isinstance(cont, VDict):
+        if cont.rec is not None:
+            xv = resolve(ip, x)
+            if is_rec_key(xv):
+                return xv.py in cont.rec
+            raise EngineError('membership in a record dictionary with a symbolic key')
         if cont.kk is None:
             return False
         try:
@@ -714,10 +769,7 @@ def norm_index(ip, i, n, node, what='list'):
     else:
         idx = z3.If(it < 0, it + n, it)
         ok = z3.And(idx >= 0, idx < n)
-    if ip.mode == 'quant':
-        ip.prove(f'{ip.cur_fn}.noraise@{ip.stmt_tag(node)}', ok)
-    elif not ip.branch(ok):
-        raise PyRaise(VExc('IndexError'), node)
+    ip.raise_if(z3.Not(ok), 'IndexError', node)
     return z3.simplify(idx)
 
 
@@ -784,6 +836,13 @@ def get_item(ip, obj, idx, node):
             return res
         raise EngineError(f'tuple index {i!r}')
     if isinstance(obj, VDict):
+        if obj.rec is not None:
+            key = resolve(ip, idx)
+            if is_rec_key(key):
+                if key.py in obj.rec:
+                    return obj.rec[key.py]
+                raise PyRaise(VExc('KeyError'), node)
+            raise EngineError('record dictionary indexed with a symbolic key')
         if obj.kk is None:
             raise PyRaise(VExc('KeyError'), node)
         key = resolve(ip, idx)
@@ -803,7 +862,7 @@ def get_item(ip, obj, idx, node):
                     return v
                 raise PyRaise(VExc('KeyError'), node)
         elif ip.mode == 'quant':
-            ip.prove(f'{ip.cur_fn}.noraise@{ip.stmt_tag(node)}', z3.Select(obj.dom, kt))
+            ip.raise_if(z3.Not(z3.Select(obj.dom, kt)), 'KeyError', node)
         v = obj.vk.wrap(z3.Select(obj.map, kt), ip)
         link(ip, v, obj, ('dict', kt))
         return v
@@ -874,10 +933,22 @@ def dict_store(ip, d, kt, v):
     d._writeback()
 
 
+def is_rec_key(k):
+    return isinstance(k, VConst) and isinstance(k.py, (str, int)) and not isinstance(k.py, bool)
+
+
 def set_item(ip, obj, idx, v, node):
     obj = resolve(ip, obj)
     if isinstance(obj, VDict):
         key = resolve(ip, idx)
+        if obj.rec is not None or (obj.kk is None and isinstance(key, VConst) and isinstance(key.py, str)):
+            if not is_rec_key(key):
+                raise EngineError('record dictionary with a symbolic key')
+            if obj.rec is None:
+                obj.rec = {}
+            ip.touch(obj)
+            obj.rec[key.py] = v
+            return
         v = resolve(ip, v)
         if obj.kk is None:
             obj.ensure_kinds(kind_of(key), kind_of(v))
@@ -1010,10 +1081,10 @@ def set_update(ip, s, other):
 # ---------------------------------------------------------------------------------------------
 # names
 
-BUILTIN_FUNCS = {'len', 'isinstance', 'int', 'range', 'max', 'min', 'sum', 'any', 'all', 'sorted',
+BUILTIN_FUNCS = {'len', 'isinstance', 'range', 'max', 'min', 'sum', 'any', 'all', 'sorted',
                  'reversed', 'enumerate', 'zip', 'abs', 'divmod', 'repr', 'hex', 'print', 'getattr',
                  'hasattr', 'id', 'iter', 'next', 'round', 'callable', 'ord', 'chr', 'super', 'issubclass'}
-BUILTIN_CLASSES = {'set', 'list', 'dict', 'tuple', 'bytes', 'bytearray', 'str', 'bool', 'float', 'object',
+BUILTIN_CLASSES = {'int', 'set', 'list', 'dict', 'tuple', 'bytes', 'bytearray', 'str', 'bool', 'float', 'object',
                    'memoryview', 'frozenset', 'type'}
 EXC_NAMES = set(EXC_PARENT)
 
@@ -1058,6 +1129,7 @@ LIBRARY = {
     ('ipaddress', 'IPv4Address'): ('class', 'IPv4Address'), ('ipaddress', 'IPv6Address'): ('class', 'IPv6Address'),
     ('ipaddress', 'IPv4Network'): ('class', 'IPv4Network'), ('ipaddress', 'IPv6Network'): ('class', 'IPv6Network'),
     ('itertools', 'count'): ('builtin', 'itertools.count'),
+    ('asyncio', 'get_event_loop'): ('builtin', 'get_event_loop'), ('random', 'randrange'): ('builtin', 'random.randrange'),
 }
 
 
@@ -1158,6 +1230,9 @@ def get_attr(ip, obj, attr, node, fr):
         if ca is not None:
             mod, expr = ca
             return ip.eval(expr, Frame(mod, f'{relpath}:{cname}'))
+        spec = ip.reg.classes.get(obj.cls)
+        if spec is not None and attr in spec.methods:
+            return VFunc('contractref', attr, target=spec.methods[attr], self_val=obj)
         if ip.mode == 'spec':
             raise EngineError(f'{obj.cls} has no field {attr} (specification expression)')
         raise EngineError(f'{obj.cls} object has no attribute {attr!r} (declare the field in the class '
@@ -1194,18 +1269,43 @@ def get_attr(ip, obj, attr, node, fr):
         if attr in ('index', 'count'):
             return VFunc('bound', f'tuple.{attr}', self_val=obj)
         raise EngineError(f'attribute {attr} of tuple')
+    def has(pytype):
+        # attribute lookup on a value of a builtin type raises AttributeError exactly when the
+        # type has no such attribute
+        if ip.mode == 'code' and not hasattr(pytype, attr):
+            raise PyRaise(VExc('AttributeError'), node)
     if isinstance(obj, VList):
+        has(tuple if obj.ghost.get('tuple') else list)
         return VFunc('bound', f'list.{attr}', self_val=obj)
     if isinstance(obj, VSet):
+        has(set)
         return VFunc('bound', f'set.{attr}', self_val=obj)
     if isinstance(obj, VDict):
+        has(dict)
         return VFunc('bound', f'dict.{attr}', self_val=obj)
     if isinstance(obj, VStr) or (isinstance(obj, VConst) and isinstance(obj.py, str)):
+        has(str)
         return VFunc('bound', f'str.{attr}', self_val=obj)
     if isinstance(obj, VBytes) or (isinstance(obj, VConst) and isinstance(obj.py, (bytes, bytearray))):
+        has(bytes)
         return VFunc('bound', f'bytes.{attr}', self_val=obj)
-    if is_intlike(obj):
+    if isinstance(obj, VBool) or (isinstance(obj, VConst) and isinstance(obj.py, bool)):
+        has(bool)
         return VFunc('bound', f'int.{attr}', self_val=obj)
+    if is_intlike(obj):
+        has(int)
+        return VFunc('bound', f'int.{attr}', self_val=obj)
+    if isinstance(obj, VFloat):
+        has(float)
+        return VFunc('bound', f'float.{attr}', self_val=obj)
+    if isinstance(obj, VJList):
+        has(list)
+        return VFunc('bound', f'jlist.{attr}', self_val=obj)
+    if isinstance(obj, VJDict):
+        has(dict)
+        return VFunc('bound', f'jdict.{attr}', self_val=obj)
+    if isinstance(obj, VConst) and obj.py is None:
+        has(type(None))
     if isinstance(obj, VStruct):
         return VFunc('bound', f'Struct.{attr}', self_val=obj)
     if isinstance(obj, VExc):
@@ -1218,6 +1318,10 @@ def get_attr(ip, obj, attr, node, fr):
     if isinstance(obj, VOpaque):
         return VFunc('bound', f'opaque.{attr}', self_val=obj)
     if isinstance(obj, VU):
+        if attr in obj.kind.attrs:
+            k = obj.kind.attrs[attr]
+            f = UF(f'{obj.kind.name}.{attr}', obj.kind.sort(), k.sort())
+            return k.wrap(f(obj.t), ip)
         return VFunc('bound', f'U.{attr}', self_val=obj)
     if isinstance(obj, (VJList, VJDict, VFloat)) or (isinstance(obj, VConst) and obj.py is None):
         # attribute access on a JSON value of the wrong shape
@@ -1319,6 +1423,13 @@ def call_builtin(ip, f, args, kwargs, node, fr):
     name = f.name
     if f.fkind == 'contractref':
         c = ip.reg.contracts[f.target]
+        if ':' in f.target and not f.target.startswith('ext:'):
+            try:
+                mod, fnode = ip.repo.function(f.target)
+            except KeyError:
+                mod = fnode = None
+            if fnode is not None:
+                return ip.apply_contract(c, fnode, mod, f, args, kwargs, node, fr)
         names = list(c.params.keys())
         if f.self_val is not None and 'self' not in names:
             names = ['self'] + names
@@ -1422,24 +1533,20 @@ def int_of(ip, v, node, base=None):
         except ValueError:
             raise PyRaise(VExc('ValueError'), node)
     if isinstance(v, VFloat):
-        if ip.branch(v.fk == 0):
-            r = v.r
-            return VInt(z3.If(r >= 0, z3.ToInt(r), -z3.ToInt(-r)))
-        if ip.branch(v.fk == 3):
-            raise PyRaise(VExc('ValueError'), node)
-        raise PyRaise(VExc('OverflowError'), node)      # int(+-inf)
+        ip.raise_if(v.fk == 3, 'ValueError', node)
+        ip.raise_if(v.fk != 0, 'OverflowError', node)      # int(+-inf)
+        r = v.r
+        return VInt(z3.If(r >= 0, z3.ToInt(r), -z3.ToInt(-r)))
     if isinstance(v, VReal):
         return VInt(z3.If(v.t >= 0, z3.ToInt(v.t), -z3.ToInt(-v.t)))
     if isinstance(v, VStr):
         ok = UF('str_is_int', z3.StringSort(), z3.BoolSort())(v.t)
-        if ip.branch(ok):
-            return VInt(UF('str_to_int', z3.StringSort(), z3.IntSort())(v.t))
-        raise PyRaise(VExc('ValueError'), node)
+        ip.raise_if(z3.Not(ok), 'ValueError', node)
+        return VInt(UF('str_to_int', z3.StringSort(), z3.IntSort())(v.t))
     if isinstance(v, VBytes):
         ok = UF('bytes_is_int', v.t.sort(), z3.BoolSort())(v.t)
-        if ip.branch(ok):
-            return VInt(UF('bytes_to_int', v.t.sort(), z3.IntSort())(v.t))
-        raise PyRaise(VExc('ValueError'), node)
+        ip.raise_if(z3.Not(ok), 'ValueError', node)
+        return VInt(UF('bytes_to_int', v.t.sort(), z3.IntSort())(v.t))
     if isinstance(v, (VJList, VJDict, VList, VDict, VTuple, VSet)) or (isinstance(v, VConst) and v.py is None):
         raise PyRaise(VExc('TypeError'), node)
     raise EngineError(f'int() of {v!r}')
@@ -1506,9 +1613,9 @@ def minmax(ip, args, kwargs, node, fr, is_max):
             t = real_term(v)
             r = z3.If(t > r, t, r) if is_max else z3.If(t < r, t, r)
         return VReal(r)
-    if all(isinstance(v, VTuple) for v in vs) and len(vs) == 2:
+    if all(isinstance(v, (VTuple, VList)) for v in vs) and len(vs) == 2:
         op = ast.Gt() if is_max else ast.Lt()
-        c = tuple_order(ip, op, vs[1], vs[0], node)
+        c = truth(ip, compare(ip, op, vs[1], vs[0], node))
         if ip.mode == 'code':
             return vs[1] if ip.branch(c) else vs[0]
         raise EngineError('max of tuples in specification mode')
@@ -1771,7 +1878,9 @@ def call_class(ip, c, args, kwargs, node, fr):
         ci = ip.concrete_items(v)
         if ci is not None:
             return VTuple(ci)
-        return to_list(ip, v, node)       # a tuple of symbolic length is represented as a list
+        r = to_list(ip, v, node)       # a tuple of symbolic length is represented as a list
+        r.ghost['tuple'] = True
+        return r
     if n in ('set', 'frozenset'):
         if not args:
             return VSet(None, None)
@@ -2155,6 +2264,11 @@ def _s_subset(ip, recv, args, kwargs, node, fr):
 @method('dict', 'get')
 def _d_get(ip, recv, args, kwargs, node, fr):
     default = args[1] if len(args) > 1 else VConst(None)
+    if recv.rec is not None:
+        k = resolve(ip, args[0])
+        if is_rec_key(k):
+            return recv.rec.get(k.py, default)
+        raise EngineError('record dictionary .get with a symbolic key')
     if recv.kk is None:
         return default
     try:
@@ -2204,6 +2318,8 @@ def _d_setdefault(ip, recv, args, kwargs, node, fr):
 
 @method('dict', 'items')
 def _d_items(ip, recv, args, kwargs, node, fr):
+    if recv.rec is not None:
+        return VTuple(tuple(VTuple((VConst(k), v)) for k, v in recv.rec.items()))
     return VDictItems(recv, 'items')
 
 
@@ -2236,6 +2352,14 @@ def _d_update(ip, recv, args, kwargs, node, fr):
     o = resolve(ip, args[0])
     if not isinstance(o, VDict):
         raise EngineError('dict.update from non-dict')
+    if recv.rec is not None or o.rec is not None:
+        if (recv.kk is not None) or (o.kk is not None):
+            raise EngineError('update between a record and a symbolic dictionary')
+        if recv.rec is None:
+            recv.rec = {}
+        ip.touch(recv)
+        recv.rec.update(o.rec or {})
+        return VConst(None)
     if o.kk is None:
         return VConst(None)
     if recv.kk is None:
@@ -2406,8 +2530,11 @@ class QuantScope:
         ip.solver.push()
         for h in self.hyps:
             ip.assume(h)
+        self.saved_collect = ip.quant_collect
         if ip.mode == 'code':
             ip.mode = 'quant'
+            ip.quant_collect = []
+        self.collected = ip.quant_collect
         return self
 
     def __exit__(self, *a):
@@ -2416,7 +2543,31 @@ class QuantScope:
         del ip.pc[self.npc:]
         ip.pow2_seen = self.pow2_seen
         ip.mode = self.saved_mode
+        ip.quant_collect = self.saved_collect
         return False
+
+
+def comprehension_outcome(ip, scope, bound, rng, node):
+    '''After evaluating a comprehension element for an arbitrary index: either every element
+    evaluates without exception, or some element raises one of the recorded classes.'''
+    col = scope.collected if scope.saved_mode == 'code' else None
+    if not col:
+        return
+    types = sorted({t for t, _ in col})
+    any_cond = z3.Or(*[c for _, c in col])
+    opts = ['ok'] + types
+    # prune impossible raises first (cheap, keeps the path count down)
+    d = ip.choose(len(opts), opts)
+    if d == 0:
+        ip.assume(z3.ForAll([bound], z3.Implies(rng, z3.Not(any_cond))))
+        ip.end_if_infeasible()
+        return
+    typ = opts[d]
+    cond = z3.Or(*[c for t, c in col if t == typ])
+    w = z3.Const(ip.fresh_name('w'), bound.sort())
+    ip.assume(z3.substitute(z3.And(rng, cond), (bound, w)))
+    ip.end_if_infeasible()
+    raise PyRaise(VExc(typ), node)
 
 
 def name_set(ip, x, body, ek):
@@ -2477,7 +2628,7 @@ def comprehension(ip, e, fr, kind):
             elem = src.ek.wrap(z3.Select(src.arr, J), None) if not isinstance(src.ek, KOpt) else None
             if elem is None:
                 raise EngineError('comprehension over a list of optionals')
-        with QuantScope(ip, [J >= 0, J < n]):
+        with QuantScope(ip, [J >= 0, J < n]) as scope:
             ip.assign(g.target, elem, sub)
             conds = []
             for c in g.ifs:
@@ -2488,6 +2639,7 @@ def comprehension(ip, e, fr, kind):
             v = resolve(ip, ip.eval(e.elt, sub))
             ek = kind_of(v)
             vt = ek.unwrap(v)
+        comprehension_outcome(ip, scope, J, z3.And(J >= 0, J < n, *conds), e)
         cond = z3.And(*conds) if conds else None
         if kind == 'set':
             y = z3.Const(ip.fresh_name('y'), ek.sort())
@@ -2521,7 +2673,7 @@ def comprehension(ip, e, fr, kind):
     if ek is None:
         return VList(None, z3.IntVal(0), None) if kind != 'set' else VSet(None, None)
     X = z3.Const(ip.fresh_name('cx'), ek.sort())
-    with QuantScope(ip, [z3.Select(dom, X)]):
+    with QuantScope(ip, [z3.Select(dom, X)]) as scope:
         elem = ek.wrap(X, None)
         if isinstance(src, VDictItems) and src.what == 'items':
             elem = VTuple((elem, src.d.vk.wrap(z3.Select(src.d.map, X), None)))
@@ -2535,6 +2687,7 @@ def comprehension(ip, e, fr, kind):
         v = resolve(ip, ip.eval(e.elt, sub))
         rk = kind_of(v)
         vt = rk.unwrap(v)
+    comprehension_outcome(ip, scope, X, z3.And(z3.Select(dom, X), *conds), e)
     member = z3.And(z3.Select(dom, X), *conds)
     identity = vt.eq(X)
     if identity:
@@ -2709,14 +2862,14 @@ def spec_call(ip, e, fr):
             return VList(z3.Store(d.arr, int_term(k), d.ek.unwrap(v)), d.n, d.ek)
         raise EngineError('store on this value')
     if name == 'is_none':
-        v = ev(e.args[0])
+        v = resolve(ip, ev(e.args[0]))
         if isinstance(v, VOptTerm):
             return KBool.wrap(v.kind.sort().recognizer(0)(v.t))
         if isinstance(v, VJ):
             return KBool.wrap(J_sort().is_JNull(v.t))
         return VConst(isinstance(v, VConst) and v.py is None)
     if name == 'some':
-        v = ev(e.args[0])
+        v = resolve(ip, ev(e.args[0]))
         if isinstance(v, VOptTerm):
             return v.kind.inner.wrap(v.kind.sort().accessor(1, 0)(v.t), None)
         return v
@@ -2783,3 +2936,88 @@ def _log(ip, args, kwargs, node, fr):
     ip.assume(z3.And(d > 0, d < z3.RealVal('1/4')))
     ip.assume(z3.And(r >= z3.ToReal(k) - d, r <= z3.ToReal(k) + 1 + d))
     return VReal(r)
+
+
+
+def check_format_spec(ip, val, spec_node, node):
+    '''f"{x:,d}": integer presentation types need an int (bool counts); a str raises ValueError,
+    None / containers raise TypeError (T-STR covers everything else as total).'''
+    if ip.mode != 'code':
+        return
+    if not all(isinstance(p, ast.Constant) for p in spec_node.values):
+        return
+    spec = ''.join(p.value for p in spec_node.values)
+    if not spec:
+        return
+    v = resolve(ip, val)
+    kind = spec[-1]
+    if kind in 'dxXobn,':
+        if is_intlike(v):
+            return
+        if isinstance(v, (VFloat, VReal)) or (isinstance(v, VConst) and isinstance(v.py, float)):
+            if kind == ',':
+                return
+            raise PyRaise(VExc('ValueError'), node)
+        if is_str(v):
+            raise PyRaise(VExc('ValueError'), node)
+        raise PyRaise(VExc('TypeError'), node)
+    if kind in 'feEgG%':
+        if is_intlike(v) or isinstance(v, (VFloat, VReal)) or (isinstance(v, VConst) and isinstance(v.py, float)):
+            return
+        if is_str(v):
+            raise PyRaise(VExc('ValueError'), node)
+        raise PyRaise(VExc('TypeError'), node)
+
+
+
+def conforms(ip, v, kind):
+    '''Does the (resolved) value have the Python type the kind stands for?  Returns (ok, value).'''
+    from .values import KOpt, KList, KTuple, KSet, KDict, KObj, KConst, KOneOf, KRecord, KU
+    from .dsl import KCallable
+    if isinstance(kind, (KCallable, KConst, KOneOf, KRecord)) or kind.__class__.__name__ == 'KKindSpecFun':
+        return True, v
+    if kind is KJ:
+        return True, v          # any JSON-representable value; kept as it is
+    r = resolve(ip, v)
+    if isinstance(kind, KOpt):
+        if isinstance(r, VConst) and r.py is None:
+            return True, r
+        return conforms(ip, r, kind.inner)
+    if kind is KInt:
+        return is_intlike(r), r
+    if kind is KBool:
+        return isinstance(r, VBool) or (isinstance(r, VConst) and isinstance(r.py, bool)), r
+    if kind is KReal:
+        return is_intlike(r) or isinstance(r, (VReal, VFloat)) or (isinstance(r, VConst) and isinstance(r.py, float)), r
+    if kind is KStr:
+        return is_str(r), r
+    if kind is KBytes:
+        return is_bytes(r), r
+    if isinstance(kind, KList):
+        return isinstance(r, (VList, VTuple)), r
+    if isinstance(kind, KTuple):
+        return isinstance(r, VTuple) and len(r.items) == len(kind.elems), r
+    if isinstance(kind, KSet):
+        return isinstance(r, VSet), r
+    if isinstance(kind, KDict):
+        return isinstance(r, VDict), r
+    if isinstance(kind, KObj):
+        return isinstance(r, VObj), r
+    if isinstance(kind, KU):
+        return (isinstance(r, VU) and r.kind == kind) or (isinstance(r, VConst) and r.py in kind.consts), r
+    return True, r
+
+
+
+@builtin('get_event_loop')
+def _get_event_loop(ip, args, kwargs, node, fr):
+    return VOpaque('event loop')
+
+
+@builtin('random.randrange')
+def _randrange(ip, args, kwargs, node, fr):
+    ip.assumed.add('T-RANDOM')
+    lo, hi = (VConst(0), args[0]) if len(args) == 1 else (args[0], args[1])
+    r = z3.Int(ip.fresh_name('rand'))
+    ip.assume(z3.And(int_term(resolve(ip, lo)) <= r, r < int_term(resolve(ip, hi))))
+    return VInt(r)
